@@ -165,6 +165,9 @@ class SkBaseTransformLearner(SkBaseTransform):
         if "method" in values:
             self.method = values["method"]
             del values["method"]
+        own = {k: values.pop(k) for k in list(values) if k in self.P.Keys}
+        if own:
+            SkBaseTransform.set_params(self, **own)
         for k in values:
             if not k.startswith("model__"):
                 raise ValueError(f"Parameter '{k}' must start with 'model__'.")
